@@ -417,7 +417,27 @@ def spec_histories(ctx, cases):
     ctx.count("replays in histories over three specs (two of them with equal hashes) sharing one helper", n)
 
 
+def translated_visualizer(ctx):
+    """which renderer calls the visualizer issues, read from source on every run (harness/gen/vis_translate.py, fail-closed): initialize and
+    the handlers of visualizer/impl/{gate,init,measure,path}.py become vis_init_src / vis_event_src, proved equal to Model.Visualizer's
+    for every event and every table of zones"""
+    from gen import vis_translate
+    from vcommon import paths
+    name = "visualizer/interp.py and visualizer/impl/*.py are inside the translated fragment (generated model Gen_C16_src.v)"
+    try:
+        body = vis_translate.generate(paths.REPO)
+    except Exception as e:
+        ctx.obligation(name, False, f"{type(e).__name__}: {e}"[:300])
+        return
+    ctx.obligation(name, True)
+    ok, log = coqrun.compile_lemma_file(ctx.bdir, "Gen_C16_src", body, timeout=300)
+    closed = log.count("Closed under the global context")
+    ctx.obligation("the translated renderer calls equal Model.Visualizer.vis_event / vis_init for every event and table (vis_event_src_eq, "
+                   "vis_init_src_eq), closed under the global context", ok and closed >= 2, log[-600:])
+
+
 def run(ctx):
+    translated_visualizer(ctx)
     S = tweezer_prog.harness_spec()
     reflect_dispatch(ctx, S)
     ctx.rule = ("the move-program corpus of C04 (device calls, parallel groups, all five gate kinds with distinct parameters, fills, "
